@@ -9,6 +9,10 @@ import WuffsVerif.Model.CExprTreeAst
   case <id> <serialised typed AST of one struct + its methods>   -> init ok | bad-program
   call <method> [<arg>=<int>]*                                    -> r <ret> | <field values>
                                                                      (or `undef:…` / `unsupported:…`)
+  reinit                                                          -> init ok   (fresh receiver, same program)
+  iocall <coroutine> <hex of the stream bytes available so far | -> <room of dst>
+                     -> r <status> <bytes read> <bytes written> <hex written> | <field values>
+                        (one call of a coroutine with I/O arguments; resumes after a suspension)
   lowerexpr <serialised typed AST of an expression>
                      -> canonical prefix form of the C that the modelled writeExpr recursion
                         (Model/CExprTree.lean lowerN / lowerB, subject of Props/C04Expr.lean) writes
@@ -107,6 +111,50 @@ def shapeStep (l : List String) : Option String :=
 structure DSt where
   prog : Option Prog := none
   st : St := { fields := [] }
+  /-- the receiver state at the start of the coroutine activation that is
+  suspended at the moment (`iocall`), if any -/
+  act : Option St := none
+
+def hexByte (n : Nat) : String :=
+  let d := fun (k : Nat) => (if k < 10 then Char.ofNat (48 + k) else Char.ofNat (87 + k))
+  String.ofList [d (n / 16 % 16), d (n % 16)]
+
+def hexOf (bs : List Nat) : String :=
+  if bs.isEmpty then "-" else String.join (bs.map hexByte)
+
+def parseHexBytes (s : String) : Option (List Nat) :=
+  if s == "-" then some [] else
+  let rec go : List Char → Option (List Nat)
+    | [] => some []
+    | [_] => none
+    | a :: b :: r => do
+      let x ← WuffsVerif.WSem.hexDigitVal a
+      let y ← WuffsVerif.WSem.hexDigitVal b
+      let t ← go r
+      pure ((x * 16 + y) :: t)
+  go s.toList
+
+/-- One call of a coroutine with I/O arguments (`iocall`): `src` = all the bytes
+of the stream that are available to this call (from the start of the stream),
+`cap` = the room of the destination.  A call that follows a suspension resumes
+the same activation: it is interpreted by running the activation again from
+its start state (`d.act`) on the longer input. -/
+def ioCall (d : DSt) (p : Prog) (f : Func) (src : List Nat) (cap : Nat) : DSt × String :=
+  let base := match d.act with
+    | some a => a
+    | none => d.st
+  let st0 : St := { base with io := { src := src, ri := base.io.ri, cap := cap, out := base.io.out } }
+  let args : Binds := f.params.map (fun (n, _) => (n, Val.unit))
+  match callPublic p st0 f args with
+  | .error e => (d, e)
+  | .ok (st', v) =>
+    let status := match v with
+      | .status s => s
+      | _ => "ok"
+    let d' : DSt := if status.startsWith "$" then { d with st := st', act := some base }
+      else { d with st := st', act := none }
+    let stxt := String.ofList (status.toList.map (fun c => if c == ' ' then '_' else c))
+    (d', s!"r {stxt} {st'.io.ri} {st'.io.out.length} {hexOf st'.io.out} | {showSt p st'}")
 
 def parseArg (s : String) : Option (String × Val) :=
   match s.splitOn "=" with
@@ -123,12 +171,23 @@ def c04Step (d : DSt) (l : List String) : DSt × String :=
     match parseTree toks with
     | some n => (d, WuffsVerif.C.lowerExprText n)
     | none => (d, "bad-expression")
+  | ["reinit"] =>
+    match d.prog with
+    | some p => ({ prog := some p, st := initSt p }, "init ok")
+    | none => (d, "bad-op")
+  | ["iocall", m, src, cap] =>
+    match d.prog with
+    | none => (d, "bad-op")
+    | some p =>
+      match p.funcs.find? (fun f => f.name == m), parseHexBytes src, cap.toNat? with
+      | some f, some bs, some c => ioCall d p f bs c
+      | _, _, _ => (d, "bad-op")
   | ["skel", m] =>
     match d.prog with
     | none => (d, "bad-op")
     | some p =>
       match p.funcs.find? (fun f => f.name == m) with
-      | some f => (d, WuffsVerif.CStmt.skeletonOf f.body f.out.isSome)
+      | some f => (d, WuffsVerif.CStmt.skeletonOf f.body f.out.isSome f.coro)
       | none => (d, "bad-op")
   | "call" :: m :: args =>
     match d.prog with
